@@ -26,4 +26,42 @@ PROPS = {
         ],
         "assumptions": ["callbacks/aggregates are called on lists not mutated concurrently"],
     },
+    "C07": {
+        "n": {"quick": 3000, "thorough": 150000},
+        "per_shard": 200,
+        "run_header": HDR % "RunPure",
+        "run_check": "c07_check",
+        "run_show": "(fun c => let '(a, b, _, _) := c in c07_model a b)",
+        "rule": "pairs (a, b) of container trees where b is a one-place edit of a at a random node (kind of one scalar changed, key renamed, "
+                "element/member appended or removed, members permuted, sign of zero, value nudged, elements swapped, identical copy) or an "
+                "unrelated tree; both argument orders; a third tree for transitivity; non-trivial = an edit was applied; distinct by canonical form of the pair",
+        "trusted": ["modelled, not verified: Go == on float64 as FloatBits.feq; Go map iteration order is irrelevant to the result (theorem C07_spec: "
+                    "the result depends only on key sets and values)"],
+        "assumptions": ["operands are acyclic value trees with distinct object keys (wfb)"],
+    },
+    "C14": {
+        "n": {"quick": 1500, "thorough": 60000},
+        "per_shard": 100,
+        "run_header": HDR % "RunPure",
+        "run_check": "c14_check",
+        "run_show": "(fun c => c14_model (fst c))",
+        "rule": "lists and objects with multiplicity 0/1/2/3 of each of the seven kinds in random interleavings; all 45 list views and 16 object views "
+                "are called with callbacks from a fixed family (mirrored in Coq) and their results/call logs recorded; object logs compared as multisets; "
+                "non-trivial = at least two kinds present and some kind occurs at least twice; distinct by canonical form of the container",
+        "trusted": ["callback family (kind-tagging map, truthiness filter, order-sensitive reducers) mirrored by hand in RunPure.v and pure.go"],
+        "assumptions": ["callbacks are pure and do not mutate the container being iterated"],
+    },
+    "C17": {
+        "n": {"quick": 3000, "thorough": 150000},
+        "per_shard": 250,
+        "run_header": HDR % "RunPure",
+        "run_check": "c17_check",
+        "run_show": "(fun c => let '(l, _, _) := c in c17_model l)",
+        "rule": "homogeneous int/string/float lists (duplicates, extremes MinInt/MaxInt/+-Inf/+-0/empty string/non-ASCII, presorted and reverse-sorted), "
+                "mixed-kind lists, lists whose first element is of another kind, the empty list; lengths 0..9 of both parities; Sort results compared "
+                "pointwise up to the sign of zeros and as bit-exact multisets; non-trivial = length >= 2; distinct by canonical form",
+        "trusted": ["modelled, not verified: sort.Ints/Strings/Float64s as insertion sort, justified by the proved uniqueness of sorted permutations "
+                    "(C17_unique_*); sort.Float64s on NaN-free input orders by the sign-magnitude key"],
+        "assumptions": ["float lists are NaN-free (as the property states)"],
+    },
 }
